@@ -480,7 +480,9 @@ func (w *svWorld) readers() {
 		want += x
 		mag += math.Abs(x)
 	}
-	c.Logf("v.Reduce(+) -> %g", sum.GetFloat64())
+	// (the library's own sum is not logged: the order in which it adds the
+	// entries, and with it the last bit, is not seed-controlled)
+	c.Logf("v.Reduce(+), model sum %g", want)
 	// the order of the traversal is not part of the contract: quotients are not
 	// dyadic, so the sum is compared up to rounding
 	if math.Abs(sum.GetFloat64()-want) > 1e-12*mag {
